@@ -45,6 +45,13 @@ def _iscorrect_fact(facts, obj_texts, arg_text):
                 return True
         if text in obj_texts and truth is False:
             return True
+        # a test kept as one value ('const bool rejected = constraint_ && !constraint_->isCorrect(v); if (rejected) throw'):
+        # '(A && B) is false' is 'A false or B false', '(A || B) is true' is 'A true or B true' - established when every
+        # alternative establishes it
+        n2 = strip(node) if node is not None else None
+        if n2 is not None and n2["k"] == "BinaryOperator" and ((n2.get("op") == "&&" and truth is False) or (n2.get("op") == "||" and truth is True)):
+            if all(_iscorrect_fact(e1.cond_facts(k_, truth), obj_texts, arg_text) for k_ in kids(n2)):
+                return True
     return False
 
 
